@@ -171,7 +171,9 @@ def check(case) -> Outcome:
                                                              f"{show_rows(want)}", classes=classes, features=feats,
                                 nontrivial=nontrivial)
                 if has_dup:
-                    key = [ident(r) for r in got]
+                    # the exact list when every variable of the query is selected; under projection only the row set
+                    # (how often a projected row repeats is not asserted by any property, cf. C02)
+                    key = [ident(r) for r in got] if all_vars_selected(sc) else sorted(set(map(repr, map(ident, got))))
                     if qi in first_lists and first_lists[qi] != key:
                         return fail("repeated_object_first_vs_later", f"{label}: first full evaluation returned "
                                                                       f"{first_lists[qi]} rows, this one {show_rows(got)}",
